@@ -186,6 +186,7 @@ let run_case (t : string list) : string =
     (match decode_frame (zs c) (zs d) (zs w) (zs h) (il = "1") (unhex z) with
      | Some px -> hex px
      | None -> "ERR")
+  | ["l0budget"; ob; lim; sizes; bytes] -> string_of_int (int_of_z (l0_budget (zs ob) (zs lim) (sizes_of sizes) (unhex bytes)))
   | ["l0"; ob; lim; sizes; bytes] -> l0_text (l0_run (zs ob) (zs lim) (sizes_of sizes) (unhex bytes))
   | ["l0reset"; ob; lim; first; second] -> l0_text (l0_run_after_reset (zs ob) (zs lim) (unhex first) (unhex second))
   | _ -> "unknown-case"
